@@ -48,10 +48,29 @@ class ThresholdStream(Stream):
             "from genuine shares, repeats, too short, too long, garbage of valid length, a genuine share with a "
             "changed y byte (same x tag), odd valid lengths; compared: outcome class, recovered key, "
             "len(unlockInformation.Parts); then a live Core.Unseal with threshold genuine shares and a duplicate; "
+            "rotation paths on real unsealed cores (Shamir seal and the test auto-unseal seal with recovery keys): "
+            "SealManager.InitRotation/UpdateRotation root-shamir/root-auto/recovery, legacy Core.RekeyInit/RekeyUpdate "
+            "root-shamir/root-auto/recovery, Core.GenerateRootInit/Update shamir/auto; same alphabet of submissions plus "
+            "all-genuine and all-forged cases; compared: outcome class (short/long/dup/pending/cerr/verify-fail/proceeds) "
+            "and the recorded progress; predicate on the real outputs: proceeded => the attempt's parts contain >= "
+            "threshold distinct genuine shares, refused => no stored/recovery/KEK key changed; "
             "non-trivial = the part is recorded or completes an attempt")
 
     def nontrivial(self, op, impl):
-        return impl.startswith("pending") or impl.startswith("key") or impl.startswith("cerr")
+        return impl.startswith(("pending", "key", "cerr", "proceeds", "verify-fail"))
+
+    # rotation ops carry the harness-evaluated property predicate as `!QUORUM:<what>#<signature>`; it is reported
+    # per case so that the replay holds the whole submission sequence of the attempt, not only its last part
+    def norm_impl(self, op, impl):
+        return impl.split("!VIOL:", 1)[0].split("!QUORUM:", 1)[0]
+
+    def case_predicate(self, ops, impls):
+        out = []
+        for o, a in zip(ops, impls):
+            if "!QUORUM:" in a:
+                what, _, sig = a.split("!QUORUM:", 1)[1].partition("#")
+                out.append({"what": what, "signature": sig or None})
+        return out
 
 
 class C20(PropCheck):
@@ -64,14 +83,19 @@ class C20(PropCheck):
     assumptions = [
         "crypto/rand output is uniform (the model takes the coefficients and the shuffled x-coordinates as inputs)",
         "constant-time behaviour is not modelled",
-        "threshold accounting is modelled for the unseal path (SealManager.unsealFragment); rekey/rotate/generate-root use the "
-        "same shape (duplicate check, append, len < threshold, Parts[0] | Combine, reset) but are not driven by a stream",
+        "verification of a recovered key (seal.VerifyRecoveryKey; for a Shamir barrier: the recovered KEK must decrypt the "
+        "stored root key, AES-GCM authentication) is modelled as equality with the key the current shares were dealt from",
+        "rotation/rekey/generate-root parts are non-nil byte strings (the API handlers decode a non-empty hex/base64 string)",
     ]
     level_text = ("Lean theorems over a model of sdk/helper/shamir (GF(2^8) arithmetic, Horner evaluation, Lagrange "
                   "interpolation, Split with its randomness as an input, Combine) and of the unseal threshold accounting "
-                  "(seal_manager.go unsealFragment/recordUnsealPart/getUnsealKey): the arithmetic is a field, Combine of any "
+                  "(seal_manager.go unsealFragment/recordUnsealPart/getUnsealKey) and of rotation/rekey/generate-root (rotate.go "
+                  "UpdateRotation/progressRotation, rekey.go, generate_root.go: accounting then verification of the recovered "
+                  "key): the arithmetic is a field, Combine of any "
                   ">= t distinct shares returns the secret, t-1 shares are consistent with every secret (exactly one "
-                  "coefficient table each), no key before threshold distinct parts; the models are tied to the Go code by "
+                  "coefficient table each), no key before threshold distinct parts, a rotation step proceeds iff the attempt's "
+                  ">= threshold distinct parts combine to the current key and a part completing t-1 genuine shares to a "
+                  "verified key is itself the genuine share for its x-coordinate; the models are tied to the Go code by "
                   "an exhaustive comparison of mult/add/div/inverse over all inputs, a differential stream for Split/Combine "
                   "with replayed randomness (plus an influence test: one coefficient byte changes exactly one share "
                   "column), a differential stream through a real sealed core, and a regenerated translation of "
@@ -82,7 +106,7 @@ class C20(PropCheck):
     trusted_base = [
         "Lean 4.33.0 kernel",
         "hand-written model Obao/Model/GF256.lean tied to sdk/helper/shamir by the exhaustive/differential stream 'shamir'",
-        "hand-written model Obao/Model/Threshold.lean tied to SealManager.unsealFragment by the differential stream 'threshold'",
+        "hand-written model Obao/Model/Threshold.lean tied to SealManager.unsealFragment/UpdateRotation, Core.RekeyUpdate and Core.GenerateRootUpdate by the differential stream 'threshold'",
         "Go harnesses harness/wb/shamir, harness/wb/vault_c20 (overlaid, build tag verif) and lib/*.py diff",
         "Mathlib (Field, Polynomial, Lagrange.interpolate) as checked by the Lean kernel",
     ]
